@@ -407,14 +407,53 @@ def r5_bridges(ctx, repo):
     else:
         ctx.holds("R5", C, where(mod, fn), "records the point, evaluates it once, returns costs_signed[0]")
 
-    # wiring of the scalar optimisers
+    # wiring of the scalar optimisers: the callable handed to the optimiser must return the value of
+    # evaluator.evaluate_scalar(<its point>) unchanged (that value is the signed cost, checked above)
+    def returns_scalar_bridge(klass, target, depth=0):
+        """target: access path text of the callable as seen inside a method of klass -> (ok, detail)"""
+        if target is None:
+            return False, "no objective callable"
+        if target.endswith(".evaluator.evaluate_scalar"):
+            return True, "evaluator.evaluate_scalar itself"
+        parts = target.split(".")
+        if len(parts) == 2 and depth < 3:
+            r = repo.find_method(klass, parts[1])
+            if r is None:
+                return None, "callable %s not resolvable" % target
+            f = r[1]
+            rets = [s_ for s_ in stmts_of(f) if isinstance(s_, ast.Return)]
+            if not rets:
+                return False, "%s returns nothing" % target
+            defs_ = {}
+            for s_ in stmts_of(f):
+                if isinstance(s_, ast.Assign) and len(s_.targets) == 1 and isinstance(s_.targets[0], ast.Name):
+                    defs_[s_.targets[0].id] = s_.value
+            for rt in rets:
+                v = rt.value
+                if isinstance(v, ast.Name) and v.id in defs_:
+                    v = defs_[v.id]
+                if isinstance(v, ast.Call) and (access_path(v.func) or "").endswith("evaluate_scalar") and len(v.args) >= 1 \
+                        and access_path(v.args[0]) in func_params(f):
+                    ok2, d2 = returns_scalar_bridge(r[0], access_path(v.func), depth + 1)
+                    if not ok2:
+                        return ok2, d2
+                    continue
+                return False, "%s.%s returns %s, not the signed cost delivered by evaluator.evaluate_scalar" % (r[0].name, parts[1], text(rt.value))
+            return True, "%s.%s forwards evaluator.evaluate_scalar unchanged" % (r[0].name, parts[1])
+        return None, "callable %s not resolvable" % target
+
     sc = repo.cls("ScipyOpt", "algorithm_scipy")
     run = sc.methods.get("run")
-    ok = False
+    tgt = None
     for c in calls_in(run):
-        if access_path(c.func) == "minimize" and c.args and (access_path(c.args[0]) or "").endswith(".evaluator.evaluate_scalar"):
-            ok = True
-    ctx.check(ok, "R5", "ScipyOpt.run", where(sc.module, run), "scipy.optimize.minimize is handed evaluator.evaluate_scalar", key="wiring")
+        if access_path(c.func) in ("minimize", "scipy.optimize.minimize", "optimize.minimize") and c.args:
+            tgt = access_path(c.args[0])
+    ok, detail = returns_scalar_bridge(sc, tgt)
+    if ok is None:
+        ctx.inconclusive("R5", "ScipyOpt.run", where(sc.module, run), detail, key="wiring")
+    else:
+        ctx.check(ok, "R5", "ScipyOpt.run", where(sc.module, run), ("scipy.optimize.minimize receives the signed cost: " + detail) if ok else
+                  ("the objective handed to scipy.optimize.minimize does not deliver the signed cost: " + detail), key="wiring")
     if "algorithm_nlopt" in repo.modules:
         nl = repo.cls("NLopt", "algorithm_nlopt")
         run = nl.methods.get("run")
@@ -422,14 +461,12 @@ def r5_bridges(ctx, repo):
         for c in calls_in(run):
             if isinstance(c.func, ast.Attribute) and c.func.attr == "set_min_objective" and c.args:
                 tgt = access_path(c.args[0])
-        ok = False
-        if tgt and tgt.startswith(func_params(run)[0] + "."):
-            f = nl.methods.get(tgt.split(".")[1])
-            if f is not None:
-                rets = [s for s in f.body if isinstance(s, ast.Return)]
-                ok = bool(rets) and isinstance(rets[-1].value, ast.Call) and (access_path(rets[-1].value.func) or "").endswith(".evaluator.evaluate_scalar") \
-                    and access_path(rets[-1].value.args[0]) == func_params(f)[1]
-        ctx.check(ok, "R5", "NLopt.run", where(nl.module, run), "nlopt's objective resolves to evaluator.evaluate_scalar(x) returned unchanged", key="wiring")
+        ok, detail = returns_scalar_bridge(nl, tgt)
+        if ok is None:
+            ctx.inconclusive("R5", "NLopt.run", where(nl.module, run), detail, key="wiring")
+        else:
+            ctx.check(ok, "R5", "NLopt.run", where(nl.module, run), ("nlopt receives the signed cost: " + detail) if ok else
+                      ("the objective handed to nlopt does not deliver the signed cost: " + detail), key="wiring")
 
 
 def r6_sweep(ctx, repo):
